@@ -1,9 +1,12 @@
 /-
-`AutosarModel::load_buffer` for a model without files (the parsed root element becomes the root of the model); loading
-into a model that already has files needs the merge algorithm, which is not modelled: `unsupported`.
+`AutosarModel::load_buffer`: for a model without files the parsed root element becomes the root of the model; otherwise the
+parsed tree is merged into the model (`Model/Merge.lean`).  A merge that fails half way leaves the part already merged
+behind (known finding c11:failed-load-partial-merge); the model answers `unsupported` there (the elements left behind have
+no protocol ids).
 -/
 import AutosarVerif.Model.Parser
 import AutosarVerif.Model.FileOps
+import AutosarVerif.Model.Merge
 
 namespace AV.W
 open AV.PM
@@ -34,7 +37,6 @@ def opLoad (S : Spec) (V : Env) (nmAutosar : Nat) (w : World) (k : Nat) (name : 
   | none => (w, .no "bad-op")
   | some m =>
     if m.files.any (·.name == name) then (w, .no "err DuplicateFilenameError")
-    else if !m.files.isEmpty then (w, .no "unsupported")
     else
       let r := runParser S V strict buf w.nextId nmAutosar
       match r.1 with
@@ -42,12 +44,46 @@ def opLoad (S : Spec) (V : Env) (nmAutosar : Nat) (w : World) (k : Nat) (name : 
       | .ok (h, kids) =>
         let st := r.2
         let f : File := { id := w.nextFile, name := name, version := st.ver, standalone := st.standalone }
-        let m' : Model :=
-          { rootHdr := { h with parent := .model k, files := [f.id] }, rootKids := kids, rootIssued := true, files := [f],
-            index := indexOfIdents st.idents [], refs := st.refs.foldl (fun rs x => refsAdd rs x.1 x.2) [] }
         let ws := if st.warnings.isEmpty then "-" else ",".intercalate (st.warnings.map fun e => s!"{e.kind}@{e.line}")
-        let ids := " ".intercalate ((List.range (st.nextId - w.nextId)).map fun i => s!"e{w.nextId + i}")
-        ({ w with models := w.models.set k m', nextFile := w.nextFile + 1, nextId := st.nextId, fileOwner := w.fileOwner ++ [(f.id, k)] },
-          .ok s!"ok f{f.id} w{st.warnings.length} {ws} {ids}")
+        if m.files.isEmpty then
+          let m' : Model :=
+            { rootHdr := { h with parent := .model k, files := [f.id] }, rootKids := kids, rootIssued := true, files := [f],
+              index := indexOfIdents st.idents [], refs := st.refs.foldl (fun rs x => refsAdd rs x.1 x.2) [] }
+          let ids := " ".intercalate ((List.range (st.nextId - w.nextId)).map fun i => s!"e{w.nextId + i}")
+          ({ w with models := w.models.set k m', nextFile := w.nextFile + 1, nextId := st.nextId, fileOwner := w.fileOwner ++ [(f.id, k)] },
+            .ok (s!"ok f{f.id} w{st.warnings.length} {ws}" ++ (if ids.isEmpty then "" else " " ++ ids)))
+        else
+          -- the same path with another kind of element on the two sides: rejected before anything is merged
+          let parsed : Items := .elem h kids .nil
+          let clash := st.idents.any fun (key, id) =>
+            match m.lookup key with
+            | some ex =>
+              match m.rootItems.find ex, parsed.find id with
+              | some (eh, _), some (nh, _) => eh.name != nh.name
+              | _, _ => false
+            | none => false
+          if clash then (w, .no "err OverlappingDataError")
+          else
+            let fver : Nat → Option Nat := fun fid => ((m.files ++ [f]).find? (·.id == fid)).map (·.version)
+            let r2 := mergeElement S V fver f.id st.ver (kids.size + m.rootKids.size + 2) m.rootHdr m.rootKids (m.files.map (·.id)) kids
+            match r2.2 with
+            | some _ => (w, .no "unsupported")
+            | none =>
+              let base := w.nextId
+              let root1 : Items := .elem { m.rootHdr with files := if m.rootHdr.files.contains f.id then m.rootHdr.files else m.rootHdr.files ++ [f.id] } r2.1 .nil
+              let order := newIds base root1
+              let rn := renum base order
+              let root2 := renumItems base order root1
+              -- identifiables: inserted unless the path already has an entry; only elements that are part of the merged model count
+              let index1 := st.idents.foldl (fun ix (x : Bytes × Nat) =>
+                if ix.any (·.1 == x.1) then ix else if order.contains x.2 then ix ++ [(x.1, rn x.2)] else ix) m.index
+              -- references: every text gets its key; referrers that were merged away leave nothing else behind
+              let refs1 := st.refs.foldl (fun rs (x : Bytes × Nat) =>
+                if order.contains x.2 then refsAdd rs x.1 (rn x.2)
+                else refsAdd rs x.1 ghostRef) m.refs
+              let m' := { (m.setRoot root2) with files := m.files ++ [f], index := index1, refs := refs1 }
+              let ids := " ".intercalate ((List.range order.length).map fun i => s!"e{base + i}")
+              ({ w with models := w.models.set k m', nextFile := w.nextFile + 1, nextId := base + order.length, fileOwner := w.fileOwner ++ [(f.id, k)] },
+                .ok (s!"ok f{f.id} w{st.warnings.length} {ws}" ++ (if ids.isEmpty then "" else " " ++ ids)))
 
 end AV.W
